@@ -190,8 +190,8 @@ func TestSim(t *testing.T) {
 		t0 := time.Now()
 		res := runPlan(t, def, p)
 		attachRaces(res)
-		if time.Since(t0) > 20*time.Second {
-			out.Infra = append(out.Infra, fmt.Sprintf("run %d exceeded the 20 s real-time watchdog", idx))
+		if time.Since(t0) > 90*time.Second {
+			out.Infra = append(out.Infra, fmt.Sprintf("run %d exceeded the 90 s real-time watchdog", idx))
 		}
 		out.Runs++
 		out.SimSecs += res.SimSecs
